@@ -30,6 +30,9 @@ type realStore struct {
 	params *chaincfg.Params
 	en     *enumerator // C10 only
 	skew   bool        // received times differ from the insertion clock
+	// C14: another caller's read transaction. pre runs before a write
+	// transaction begins, mid after its last write and before its commit.
+	pre, mid func()
 }
 
 func openReal(path string, params *chaincfg.Params) (*realStore, error) {
@@ -84,8 +87,17 @@ func (r *realStore) update(f func(ns walletdb.ReadWriteBucket) error) error {
 	if r.en != nil && r.en.active {
 		return r.en.run(r, f)
 	}
+	if r.pre != nil {
+		r.pre()
+	}
 	return walletdb.Update(r.db, func(tx walletdb.ReadWriteTx) error {
-		return f(tx.ReadWriteBucket(nsKey))
+		if err := f(tx.ReadWriteBucket(nsKey)); err != nil {
+			return err
+		}
+		if r.mid != nil {
+			r.mid()
+		}
+		return nil
 	})
 }
 
@@ -293,6 +305,9 @@ func (sim) Execute(env *core.Env, p *core.Plan) {
 	w := newWorld(p.Seed, cfg, u)
 	w.env, w.drv, w.prop = env, st, p.Prop
 	x := &oracle{w: w, st: st, env: env, prop: p.Prop}
+	if p.Prop == "C14" && core.Mix(p.Seed, 0xc14e)%2 == 0 {
+		x.readerBesideWriter()
+	}
 	var en *enumerator
 	if p.Prop == "C10" {
 		en = &enumerator{x: x}
